@@ -21,6 +21,7 @@ import (
 	"fmt"
 	"math"
 	"math/bits"
+	"os"
 	"strconv"
 	"strings"
 	"testing"
@@ -485,10 +486,12 @@ func checkSource(c SourceCase, s *rt.Section) *rt.Failure {
 		}
 		// no source given: still a legal die, and the explicit sources are not involved
 		stB, _ := srcB.MarshalBinary()
-		x := int64(ds.Roll(nil, ds.IntType(c.N), 0))
-		if x < 1 || uint64(x) > c.N {
-			fail = s.NewFailure("range", "range:nil-source", c, fmt.Sprintf("Roll(nil,%d,0) = %d", c.N, x), fmt.Sprintf("1..%d", c.N))
-			return
+		for i := 0; i < 64; i++ { // the global generator is clock-seeded: only the range can be judged
+			x := int64(ds.Roll(nil, ds.IntType(c.N), 0))
+			if x < 1 || uint64(x) > c.N {
+				fail = s.NewFailure("range", "range:nil-source", c, fmt.Sprintf("Roll(nil,%d,0) = %d", c.N, x), fmt.Sprintf("1..%d", c.N))
+				return
+			}
 		}
 		stB2, _ := srcB.MarshalBinary()
 		if hex.EncodeToString(stB) != hex.EncodeToString(stB2) {
@@ -681,7 +684,7 @@ func TestProp(t *testing.T) {
 	if thorough {
 		ldraws = 10_000_000
 	}
-	run.Check("large", 3200, 9600,
+	run.Check("large", 4800, 6000,
 		fmt.Sprintf("n drawn from: 2^k, 2^k+-1, 3*2^k, 5*2^k, floor(2^64*d/m) (sizes where plain v mod n is most biased), 2^63-2-(0..3), log-uniform, uniform in [2^60,2^63-2]; 16 random state bytes; %d draws of Roll(src,n,0): every draw in 1..n; n<=1024 per-face counts, above 16 equal-width quantile cells (128-bit arithmetic, exact cell probabilities) and 16 low-residue cells, plus (die i, die i+L) pairs L=1..4 over 4 quantile classes, all within the Bernstein bound at error probability 1e-13 per statistic; non-trivial = n not a power of two or n > 2^32; distinct by (n, state)", ldraws),
 		func(t *rapid.T, s *rt.Section) {
 			n, kind := drawN(t, s)
@@ -703,7 +706,13 @@ func TestProp(t *testing.T) {
 	if thorough {
 		vdraws = 400_000
 	}
-	run.Check("vm", 128, 1024,
+	// a vm case costs 0.1-1 s and rapid checks its shrink deadline only between blocks, so
+	// minimisation is switched off here (the case is three scalars already)
+	noShrink := os.Getenv("VERIF_SHRINKTIME") == ""
+	if noShrink {
+		os.Setenv("VERIF_SHRINKTIME", "0s")
+	}
+	run.Check("vm", 96, 640,
 		fmt.Sprintf("script \"<K>d<n>\" (K in {20,100,500}) run repeatedly (at most 1000 Runs) on one Context seeded with 16 random bytes until %d dice were printed in the dice span of the process text; n drawn as in section large; the printed dice are judged like direct draws (range, faces / quantile and residue cells, successive pairs), and the package-global generator must be untouched; non-trivial = n not a power of two or n > 2^32; distinct by (n, K, state)", vdraws),
 		func(t *rapid.T, s *rt.Section) {
 			n, kind := drawN(t, s)
@@ -723,6 +732,10 @@ func TestProp(t *testing.T) {
 			s.Crumb(c)
 			s.Report(t, checkStat(c, s))
 		})
+
+	if noShrink {
+		os.Unsetenv("VERIF_SHRINKTIME")
+	}
 
 	// ---- source discipline
 	run.Check("source", 40000, 400000,
